@@ -79,9 +79,13 @@ def judge (s : St) (q a : List String) : St × Verdict :=
               match S.dij with
               | some g => dijkstraRoute g 100000 x y
               | none => .error .nullDeref
+          -- errors must agree in kind: "No route" is the exception (`exc`), a walk that does not terminate is a
+          -- `timeout`, undefined behaviour an `abort` (or whatever it happened to do)
           let agree : Bool := match model with
             | .ok l => !implErr && l == links
-            | .error _ => implErr
+            | .error .noRoute => a = ["exc"]
+            | .error .loops => a = ["timeout"]
+            | .error .nullDeref => implErr
           -- spec: minimal link count over all chains of declared routes
           let w : Tbl Nat := fun p q => (S.decl[(p, q)]?).map List.length
           let (s, mins) := match s.mins[x]? with
@@ -90,7 +94,10 @@ def judge (s : St) (q a : List String) : St × Verdict :=
           let best : Option Nat := mins.getD y none
           let tag := if agree then "model=agree" else s!"model=differs({showRes model})"
           let mon : Option String :=
-            if implErr then
+            if a = ["timeout"] then
+              -- whatever the graph, a routing query must be answered (a route or the "No route" exception)
+              some s!"no answer: the library spins on this query [{tag}]"
+            else if implErr then
               match best with
               | some c => some s!"no route returned although a chain of {c} links exists [{tag}]"
               | none => none
